@@ -31,6 +31,7 @@ private:
 
   bool ResolveCstAndPrecheck() const;
   bool PrecheckFor(EntityUID key, EntityUID value) const;
+  bool CreatesDependencyLoop() const;
 
   bool CheckNonBasicEquations() const;
 
